@@ -20,6 +20,7 @@ import os
 from fractions import Fraction as F
 
 import semcheck
+import re
 import spine
 import tasks_util15 as tasks_util
 from lib import close, pmap, rat
@@ -291,7 +292,8 @@ def judge(res, sem):
         cause, msg = res["badbn"]
         if cause != "toobig":
             out.append(("the exported network does not define a distribution: %s" % msg,
-                        {"kind": "ill-formed-bn", "cause": cause}))
+                        {"kind": "ill-formed-bn", "cause": cause, "negated_name_node": bool(res.get("negated_name")),
+                         "internal_parent": bool(re.search(r"parent (body|choice|node|aux)_", msg))}))
         return out
     Z, marg = res["eval"]
     if not close(Z, 1):
